@@ -230,6 +230,23 @@ def perturb_other_callee_under_operator(rng, frag, idents):
     return 'absent-identifier'
 
 
+def perturb_shift_call_under_operator(rng, frag):
+    """g(a, b) as an operand of + or * becomes a(b): the callee is now what was the first argument"""
+    spots = []
+    for n in ast.walk(frag):
+        if isinstance(n, ast.BinOp) and isinstance(n.op, (ast.Add, ast.Mult)):
+            for side in (n.left, n.right):
+                if isinstance(side, ast.Call) and isinstance(side.func, ast.Name) and len(side.args) >= 2 and isinstance(side.args[0], ast.Name) \
+                        and side.args[0].id != side.func.id and not side.keywords:
+                    spots.append(side)
+    if not spots:
+        return None
+    c = rng.choice(spots)
+    c.func = ast.Name(id=c.args[0].id, ctx=ast.Load())
+    c.args = c.args[1:]
+    return 'call-shifted-by-one-position-under-an-operator'
+
+
 def sub_queries(ctx, rng, src, pattern, matches):
     """A sub-query on the subtree an __expr__ placeholder is bound to, with a sub-pattern that uses the same placeholder name
     again: every sub-match must be an embedding of the sub-pattern too (its __expr__ is what stands at that position)."""
@@ -374,6 +391,14 @@ def run_program(ctx, rng, src, origin, foreign_patterns):
             kind = perturb_other_callee_under_operator(rng, f5, idents)
             if kind:
                 check(ctx, src, ast.unparse(ast.fix_missing_locations(f5)), kind, must_be_empty=True)
+            f6 = cc.clone(frag)
+            kind = perturb_shift_call_under_operator(rng, f6)
+            if kind:
+                shifted = ast.unparse(ast.fix_missing_locations(f6))
+                # only a program that really contains the shifted call may match it
+                if shifted.replace(' ', '') not in src.replace(' ', ''):
+                    ctx.seen('perturbations', kind)
+                    check(ctx, src, shifted, kind, must_be_empty=False)
             f3 = cc.clone(frag)
             names = sorted({n.id for n in ast.walk(f3) if isinstance(n, ast.Name) and not n.id.startswith('_')} - {n.func.id for n in ast.walk(f3) if isinstance(n, ast.Call) and isinstance(n.func, ast.Name)})
             if names:
@@ -411,7 +436,7 @@ def run(ctx):
     sys.setrecursionlimit(20000)
     from gen.programs import gen_program
     from gen import corpus
-    from props.c11 import gen_small
+    from props.c11 import gen_small, gen_arith
     rng = ctx.rng
     repo = os.path.realpath(os.environ.get('VERIF_REPO', '/repo'))
     foreign = []
@@ -421,6 +446,7 @@ def run(ctx):
         p = gen_program(rng, static_only=(rng.random() < 0.4))
         run_program(ctx, rng, p.src, 'generated', foreign)
         run_program(ctx, rng, gen_small(rng), 'small', foreign)
+        run_program(ctx, rng, gen_arith(rng), 'arith', foreign)
     files = corpus.corpus_files(max_bytes=ctx.pick(5000, 15000), repo=repo)
     mine = files[ctx.shard::ctx.nshards]
     rng.shuffle(mine)
